@@ -11,7 +11,8 @@ from vf.core import sig_of  # noqa: E402
 
 ID = "C01"
 LEVEL = "exploration"
-RULE = ("random grammars (1-4 non-terminals with shuffled names, 1-4 ordered alternatives of length "
+RULE = ('[later additions: the shards run in a scratch directory where every fifth plain text is also the NAME of a file holding another text; skipped names that are synonym keys; lexemes with empty lines inside multi-line tokens] '
+        "random grammars (1-4 non-terminals with shuffled names, 1-4 ordered alternatives of length "
         "0-5, 45% of alternatives copy a prefix of an earlier alternative -> common / nested-common "
         "prefix groups with nullable remainders) over three tokenizer configurations (synonyms; "
         "keywords+comments+quoted strings; explicit skip_tokens with COMMENT as a grammar token), both "
